@@ -318,3 +318,9 @@ func Yield() { yieldNative() }
 // k preemptive context switches (switching away from a goroutine that could
 // continue); k < 0 = unbounded. Switches at blocking points are always free.
 func PreemptionBound(k int) {}
+
+// YieldOnUnlock makes every release of a mutex a scheduling point of its own
+// (symgo; natively nothing). Needed to see code that goes on using shared
+// data after releasing the lock that protects it: without it a goroutine is
+// only ever switched out at its next channel, lock or wait operation.
+func YieldOnUnlock(on bool) {}
